@@ -12,7 +12,6 @@ package c05
 
 import (
 	"fmt"
-	"sort"
 	"strconv"
 	"strings"
 
@@ -336,6 +335,10 @@ func isPlainIdent(v string) bool {
 func (g *selGen) attr() string {
 	r := g.r
 	key := rng.Pick(r, "a", "b", "data-x", "class", "id", "A")
+	if g.escapes && r.P(1, 12) {
+		g.f("escape")
+		key = rng.Pick(r, `a\.b`, `\31 k`, `da\ta-x`)
+	}
 	if r.P(1, 6) {
 		g.f("attr-has")
 		return "[" + key + "]"
@@ -596,7 +599,7 @@ func walkAST(a selector.VerifC05AST, f func(selector.VerifC05AST)) {
 }
 
 // printerClass names why String() cannot round-trip this AST (the known printer gaps), or "".
-func printerClass(as []selector.VerifC05AST) string {
+func printerClass(as []selector.VerifC05AST) []string {
 	nameChar := func(c byte) bool {
 		return 'a' <= c && c <= 'z' || 'A' <= c && c <= 'Z' || c == '_' || c > 127 || c == '-' || '0' <= c && c <= '9'
 	}
@@ -633,12 +636,21 @@ func printerClass(as []selector.VerifC05AST) string {
 			}
 		})
 	}
+	// one key per finding: the first applicable class in a fixed priority order (all classes go to the reason)
 	var ks []string
-	for k := range cls {
-		ks = append(ks, k)
+	for _, k := range []string{"attr-value-not-escaped", "class-leading-digit", "tag-not-escaped", "attr-key-not-escaped"} {
+		if cls[k] {
+			ks = append(ks, k)
+		}
 	}
-	sort.Strings(ks)
-	return strings.Join(ks, "+")
+	return ks
+}
+
+func first(ks []string) string {
+	if len(ks) == 0 {
+		return ""
+	}
+	return ks[0]
 }
 
 // ---------------------------------------------------------------------------------------------
@@ -769,10 +781,10 @@ func (c *runner) check(selText string, root *html.Node, seed uint64, feat map[st
 	switch {
 	case err2 != nil:
 		out.Add(res.Finding{Kind: "judge", Op: "judge:print-reparse", Input: pin, Impl: "re-parse error: " + err2.Error(),
-			Reason: "String() of a parsed selector does not parse", Key: printerClass(asts), Seed: seed})
+			Reason: fmt.Sprint("String() of a parsed selector does not parse; strings the printer does not escape: ", printerClass(asts)), Key: first(printerClass(asts)), Seed: seed})
 	case len(g2) != len(group):
 		out.Add(res.Finding{Kind: "judge", Op: "judge:print-reparse", Input: pin, Impl: fmt.Sprintf("%d selectors", len(g2)),
-			Reason: "String() re-parses to a group of another length", Key: printerClass(asts), Seed: seed})
+			Reason: fmt.Sprint("String() re-parses to a group of another length; strings the printer does not escape: ", printerClass(asts)), Key: first(printerClass(asts)), Seed: seed})
 	default:
 		for i := range group {
 			b2 := bitsOf(g2[i], nodes)
@@ -780,7 +792,7 @@ func (c *runner) check(selText string, root *html.Node, seed uint64, feat map[st
 				out.Add(res.Finding{Kind: "judge", Op: "judge:print-reparse", Input: pin + " tree=" + treeText(root),
 					Impl:   fmt.Sprint(b2, g2[i].Specificity(), g2[i].PseudoElement()),
 					Model:  fmt.Sprint(implBits[i], implSpec[i], implPE[i]),
-					Reason: "String() re-parses to a selector that matches/weighs differently", Key: printerClass(asts), Seed: seed})
+					Reason: fmt.Sprint("String() re-parses to a selector that matches/weighs differently; strings the printer does not escape: ", printerClass(asts)), Key: first(printerClass(asts)), Seed: seed})
 				break
 			}
 		}
@@ -829,7 +841,6 @@ func (c *runner) emptyValue(r *rng.R, n int) {
 type probe struct {
 	name, sel, doc string
 	want           []string // ids of the elements that must match, in document order
-	noModel        bool     // outside the model's stated domain (non-ASCII value with the i flag)
 }
 
 // expectations read off Selectors 3/4 (and HTML: document white space = ASCII white space,
@@ -843,7 +854,7 @@ var probes = []probe{
 	{"prefix-blank-attr", `[a^=" "]`, `<p id=1 a="  "><p id=2 a=" x"><p id=3 a="x">`, []string{"1", "2"}},
 	{"substring-blank-attr", `[a*=" "]`, `<p id=1 a=" "><p id=2 a="x y"><p id=3 a="x">`, []string{"1", "2"}},
 	{"dash", `[a|="x"]`, `<p id=1 a="x"><p id=2 a="x-y"><p id=3 a="xy"><p id=4 a="-x">`, []string{"1", "2"}},
-	{"i-flag-ascii", `[a="k" i]`, "<p id=1 a=\"K\"><p id=2 a=\"\u212a\"><p id=3 a=k>", []string{"1", "3"}, true},
+	{"i-flag-ascii", `[a="k" i]`, "<p id=1 a=\"K\"><p id=2 a=\"\u212a\"><p id=3 a=k>", []string{"1", "3"}},
 	{"empty-nbsp", `p:empty`, "<p id=1></p><p id=2> \n</p><p id=3><!--c--></p><p id=4>\u00a0</p><p id=5>x</p><p id=6><b></b></p>", []string{"1", "2", "3"}},
 	{"doctype-attr-sibling", `[public] ~ html`, `<!DOCTYPE html PUBLIC "x" "y"><html id=1><body id=2>`, nil},
 	{"root-is-document-element", `:root`, `<html id=1><body id=2><svg id=3><html id=4></html></svg>`, []string{"1"}},
@@ -885,7 +896,7 @@ func (c *runner) probes() error {
 				Impl: fmt.Sprint(got), Model: fmt.Sprint(p.want), Reason: "matched elements (by id) differ from the Selectors definition", Key: p.name})
 		}
 		// the same documents also go through the model
-		if p.noModel {
+		if p.name == "i-flag-ascii" { // outside the model's stated domain (non-ASCII value with the i flag)
 			continue
 		}
 		if err := c.check(p.sel, doc, 0, map[string]bool{"probe": true}, "probe"); err != nil {
